@@ -50,6 +50,8 @@ def pre_info(E, ncontrol):
     worker = fget(E, info, MI['worker'], ADDR)
     ben = fget(E, info, MI['beneficiary'], ADDR)
     E.ctx.assume(z3.And(owner.proto == 0, worker.proto == 0, ben.proto == 0))
+    # owners / workers / beneficiaries are user accounts: ids below 100 are reserved for the singleton actors
+    E.ctx.assume(z3.And(owner.key >= 100, worker.key >= 100, ben.key >= 100))
     po_some, po = opt_view(E, fget(E, info, MI['pending_owner_address'], OPT_ADDR), ADDR)
     E.ctx.assume(z3.Implies(po_some, po.proto == 0))
     # a pending owner equal to the owner is never stored (cleared as a no-op change)
